@@ -22,6 +22,8 @@
 (*    k : Nat   the consumer makes at most k requests, then abandons]               *)
 (* plus, in exported cases, the cosmetic options desc/leave/mininterval/miniters/   *)
 (* nbars/entry, which the protocol does not mention: no option may change it.       *)
+(* This module is ONE wrapper over ONE fresh iterable; ProgressHist.tla is the      *)
+(* history version (several wrappers, shared / exhausted / failing iterables).      *)
 EXTENDS VU, Json
 
 CONSTANTS MaxN,        \* sources of length 0..MaxN
